@@ -82,8 +82,11 @@ def search(pid, cfg, failure, repo, seed, extra=(), iters=None):
     except subprocess.TimeoutExpired:
         return {"found": False, "reason": "search timed out"}
     if p.returncode != 0 and "WITNESS" not in p.stdout:
-        # a panic / abort of the real code during the search is itself a finding for the caller to look at
-        return {"found": False, "reason": "searcher exited with %d: %s" % (p.returncode, (p.stderr or "")[-400:])}
+        # the real code panicked (or aborted) while the searcher was driving it through its public API: that input sequence is the
+        # failing input; it is reproduced by re-running the same search
+        return {"found": True, "kind": "panic_during_search", "property": pid, "seed": str(seed), "iters": str(iters or ""),
+                "expected": "the public API returns normally on every input the searcher generates",
+                "actual": "search process exited with %d: %s" % (p.returncode, (p.stderr or "")[-300:])}
     for ln in p.stdout.split("\n"):
         if ln.startswith("WITNESS "):
             try:
@@ -115,6 +118,18 @@ def confirm_known(k, repo):
 def run_replay(path, repo):
     doc = json.load(open(path))
     w = doc.get("witness") or {}
+    if w.get("kind") == "panic_during_search":
+        exe, err = _build(repo)
+        if exe is None:
+            print(err)
+            return 2
+        env = dict(os.environ)
+        if w.get("iters"):
+            env["VERIF_SEARCH_ITERS"] = w["iters"]
+        p = subprocess.run([exe, "search", w.get("property", ""), w.get("seed", "0")], stdout=subprocess.PIPE, stderr=subprocess.PIPE, universal_newlines=True, env=env)
+        print(p.stdout[-500:], p.stderr[-500:])
+        print("REPLAY: the search %s" % ("still makes the real code panic" if p.returncode != 0 else "now completes"))
+        return 1 if p.returncode != 0 else 0
     print("obligation:", doc.get("failure", {}).get("obligation"))
     print(doc.get("failure", {}).get("verus_output", ""))
     if not w.get("found"):
